@@ -62,7 +62,7 @@ From EV Require Import Proofs.SearchDischarge.
    DEFENDANT_YEAR pattern can fail on texts like " (1999)" (empty defendant) *)
 Theorem C17_closed_metadata : forall this_year s l,
   s <> s_eyecite -> short_page_ok s ->
-  search_residual (engine_search Gen.Unicode.U meta_table) -> defyear_ok (engine_search Gen.Unicode.U meta_table) ->
+  search_residual (engine_search UM meta_table) -> defyear_ok (engine_search UM meta_table) ->
   get_citations_closed this_year s false = Ok l ->
   Forall (meta_ok s l) l.
 Proof. exact closed_metadata''. Qed.
@@ -70,7 +70,7 @@ Print Assumptions C17_closed_metadata.
 
 Theorem C17_closed_metadata_any_option : forall this_year s ra l,
   s <> s_eyecite -> short_page_ok s ->
-  search_residual (engine_search Gen.Unicode.U meta_table) -> defyear_ok (engine_search Gen.Unicode.U meta_table) ->
+  search_residual (engine_search UM meta_table) -> defyear_ok (engine_search UM meta_table) ->
   get_citations_closed this_year s ra = Ok l ->
   exists l0, get_citations_closed this_year s false = Ok l0 /\
              (forall c, In c l -> In c l0) /\ Forall (meta_ok s l0) l.
